@@ -16,6 +16,9 @@ package network
 //     (filter n max ops has st)  the real messageFilter under random CheckDigest sequences
 //     (net n max peers steps)    real wsPeer.readLoop goroutines on fake connections sharing one
 //                                 messageFilter, serialised by a schedule
+//     (vnet n max peers steps)   the same, with votes sent over connections that negotiated
+//                                 different vote encodings (plain AV, stateless AV, stateful VP):
+//                                 the delivered (tag, bytes) stream must not repeat within the window
 
 import (
 	"bytes"
@@ -34,6 +37,7 @@ import (
 	"github.com/algorand/go-algorand/config"
 	"github.com/algorand/go-algorand/crypto"
 	"github.com/algorand/go-algorand/logging"
+	"github.com/algorand/go-algorand/network/vpack"
 	"github.com/algorand/go-algorand/protocol"
 )
 
@@ -758,6 +762,220 @@ func vNetCases(t *testing.T, out *vOut, rnd *vRand, st map[string]int) {
 	}
 }
 
+
+// ---------------------------------------------------------------- votes over mixed encodings
+
+// a well-formed vote (layout accepted by vpack), distinct per id
+func vVote(id int) []byte {
+	var snd, p, p2 [32]byte
+	var p1s, p2s, sg [64]byte
+	snd[0], snd[1] = byte(id), 3
+	p[0], p[5] = 4, byte(id)
+	p1s[0], p2[0], p2s[0], sg[0] = 5, 6, 7, 9
+	sg[7] = byte(id)
+	return protocol.EncodeReflect(map[string]any{
+		"cred": map[string]any{"pf": crypto.VrfProof{1, byte(id)}},
+		"r":    map[string]any{"rnd": uint64(2 + id), "snd": snd},
+		"sig": map[string]any{
+			"p": p, "p1s": p1s, "p2": p2,
+			"p2s": p2s, "ps": [64]byte{}, "s": sg,
+		},
+	})
+}
+
+type vVoteStep struct {
+	peer int
+	id   int
+}
+
+const vVoteTableSize = 16
+
+// Real readLoops on connections that negotiated different vote encodings (mode 0: plain AV,
+// 1: AV carrying a stateless-compressed vote, 2: VP statefully compressed) share one incoming
+// filter; every step sends one logical vote in the encoding of its connection.  Observed: what
+// reaches the handlers (count, tag, bytes == the raw vote).
+func vRunVotes(t *testing.T, nb, maxsz int, modes []int, steps []vVoteStep, st map[string]int) []interface{} {
+	lg := logging.NewLogger()
+	lg.SetLevel(logging.Error)
+	flt := makeMessageFilter(nb, maxsz)
+	readBuffer := make(chan IncomingMessage, 8)
+	npeers := len(modes)
+	nt := &vNet{closed: make(chan *wsPeer, npeers+1)}
+	peers := make([]*vPeer, npeers)
+	encs := make([]*vpack.StatefulEncoder, npeers)
+	for i := range peers {
+		conn := &vConn{frames: make(chan vFrameIn), idle: make(chan struct{})}
+		wp := &wsPeer{}
+		wp.wsPeerCore = wsPeerCore{net: nt, log: lg, readBuffer: readBuffer}
+		wp.conn = conn
+		wp.closing = make(chan struct{})
+		wp.sendBufferHighPrio = make(chan sendMessage, 4)
+		wp.sendBufferBulk = make(chan sendMessage, 4)
+		wp.processed = make(chan struct{}, len(steps)+4)
+		for j := 0; j < len(steps)+4; j++ {
+			wp.processed <- struct{}{}
+		}
+		wp.responseChannels = make(map[uint64]chan *Response)
+		wp.incomingMsgFilter = flt
+		// the state makeWsPeerMsgCodec sets up once both ends advertised the feature
+		wp.msgCodec = &wsPeerMsgCodec{log: lg, origin: "verif"}
+		if modes[i] >= 1 {
+			wp.msgCodec.avdec = vpackVoteDecompressor{enabled: true, dec: vpack.NewStatelessDecoder()}
+		}
+		if modes[i] == 2 {
+			wp.msgCodec.statefulVoteEnabled.Store(true)
+			wp.msgCodec.statefulVoteTableSize = vVoteTableSize
+			enc, err := vpack.NewStatefulEncoder(vVoteTableSize)
+			if err != nil {
+				t.Fatal(err)
+			}
+			encs[i] = enc
+		}
+		peers[i] = &vPeer{wp: wp, conn: conn, open: true}
+		wp.wg.Add(1)
+		go wp.readLoop()
+		<-conn.idle
+	}
+	var res []interface{}
+	for _, sp := range steps {
+		raw := vVote(sp.id)
+		mode := -1
+		if sp.peer < npeers {
+			mode = modes[sp.peer]
+		}
+		wireTag := "AV"
+		wire := raw
+		if mode >= 1 {
+			sl, err := vpack.NewStatelessEncoder().CompressVote(nil, raw)
+			if err != nil {
+				t.Fatalf("stateless compress: %v", err)
+			}
+			wire = sl
+			if mode == 2 && peers[sp.peer].open {
+				pk, err := encs[sp.peer].Compress(make([]byte, 0, vpack.MaxCompressedVoteSize), sl)
+				if err != nil {
+					t.Fatalf("stateful compress: %v", err)
+				}
+				wire = pk
+			}
+			if mode == 2 {
+				wireTag = "VP"
+			}
+		}
+		if mode < 0 {
+			mode = 0
+		}
+		stepT := func(obs []interface{}) {
+			res = append(res, vL(sp.peer, mode, wireTag, len(wire), sp.id, len(raw), obs))
+		}
+		if sp.peer >= npeers || !peers[sp.peer].open {
+			stepT(vL(0, 1, 0, true, ""))
+			st["vnet_gone"]++
+			continue
+		}
+		p := peers[sp.peer]
+		p.conn.frames <- vFrameIn{tag: []byte(wireTag), body: &vScriptReader{data: wire}}
+		closed := false
+		select {
+		case <-p.conn.idle:
+		case wp := <-nt.closed:
+			if wp != p.wp {
+				t.Fatalf("unexpected peer closed")
+			}
+			p.wp.wg.Wait()
+			p.open = false
+			closed = true
+		case <-time.After(60 * time.Second):
+			t.Fatalf("readLoop stuck")
+		}
+		delivered := 0
+		dlen := 0
+		dtag := ""
+		ok := true
+	drain:
+		for {
+			select {
+			case m := <-readBuffer:
+				delivered++
+				dlen = len(m.Data)
+				dtag = string(m.Tag)
+				ok = ok && m.Sender == DisconnectableAddressablePeer(p.wp) && bytes.Equal(m.Data, raw)
+			default:
+				break drain
+			}
+		}
+		if closed {
+			st["vnet_closed"]++
+		} else if delivered > 0 {
+			st[fmt.Sprintf("vnet_delivered_mode%d", mode)]++
+		} else {
+			st[fmt.Sprintf("vnet_dropped_mode%d", mode)]++
+		}
+		stepT(vL(delivered, closed, dlen, ok, dtag))
+	}
+	for _, p := range peers {
+		if p.open {
+			close(p.conn.frames)
+			select {
+			case <-nt.closed:
+			case <-time.After(30 * time.Second):
+				t.Fatalf("peer did not close")
+			}
+			p.wp.wg.Wait()
+			p.open = false
+		}
+	}
+	return res
+}
+
+func vVoteCases(t *testing.T, out *vOut, rnd *vRand, st map[string]int) {
+	vnet := vSym("vnet")
+	emit := func(nb, maxsz int, modes []int, steps []vVoteStep) {
+		out.Case(vnet, nb, maxsz, len(modes), vRunVotes(t, nb, maxsz, modes, steps, st))
+	}
+	// (1) the same vote over every ordered pair of encodings, both orders, then once more
+	for a := 0; a < 3; a++ {
+		for b := 0; b < 3; b++ {
+			emit(4, 100, []int{a, b}, []vVoteStep{{0, 1}, {1, 1}, {0, 2}, {1, 2}, {1, 3}, {0, 3}, {0, 1}, {1, 1}})
+		}
+	}
+	// (2) random schedules over 2-4 connections of mixed encodings, small and default filters
+	n := vEnvInt("VERIF_C43_VNET", 100)
+	for c := 0; c < n; c++ {
+		nb, maxsz := 1+rnd.Intn(4), 1+rnd.Intn(4)
+		if c%10 == 9 {
+			nb, maxsz = 5, 512
+		}
+		npeers := 2 + rnd.Intn(3)
+		modes := make([]int, npeers)
+		for i := range modes {
+			modes[i] = rnd.Intn(3)
+		}
+		modes[rnd.Intn(npeers)] = 2 // at least one statefully compressing connection ...
+		if modes[0] == 2 && npeers > 1 {
+			modes[1] = rnd.Intn(2) // ... and one that is not
+		} else {
+			modes[0] = rnd.Intn(2)
+			if npeers > 1 && modes[1] != 2 {
+				modes[npeers-1] = 2
+			}
+		}
+		universe := 1 + rnd.Intn(2*nb*maxsz+2)
+		if universe > 200 {
+			universe = 200
+		}
+		var steps []vVoteStep
+		for i := 5 + rnd.Intn(40); i > 0; i-- {
+			peer := rnd.Intn(npeers)
+			if rnd.Intn(30) == 0 {
+				peer = npeers
+			}
+			steps = append(steps, vVoteStep{peer, rnd.Intn(universe)})
+		}
+		emit(nb, maxsz, modes, steps)
+	}
+}
+
 // ---------------------------------------------------------------- entry point
 
 func TestVerifC43(t *testing.T) {
@@ -776,6 +994,7 @@ func TestVerifC43(t *testing.T) {
 	vSlurpCases(out, rnd, st)
 	vFilterCases(out, rnd, st)
 	vNetCases(t, out, rnd, st)
+	vVoteCases(t, out, vNewRand(4343), st)
 	m := map[string]interface{}{}
 	for k, v := range st {
 		m[k] = v
